@@ -280,7 +280,9 @@ class ObjectNode:
         # or in a module with the same path components but starting/not starting with underscores,
         # we don't want to alias it. Examples: (a, a), (a, _a), (_a, a), (_a, _a),
         # (a.b, a.b), (a.b, _a.b), (_a._b, a.b), (a._b, _a.b), etc..
-        if _same_components(parent_module_path, child_module_path):
+        # This only applies to the objects declared in a module, never to a module object itself:
+        # an imported module is always aliased (inspecting it in place would replace the module being inspected).
+        if not self.is_module and _same_components(parent_module_path, child_module_path):
             return None
 
         # If the current object was declared in any other module, we alias it.
